@@ -397,6 +397,7 @@ def run(ck):
     segment_level(ck, rnd, 400 if quick else 4000)
     hash_eq(ck)
     # V
+    suite_traces(ck)
     traces = [[norm_event(h) for h in record_random(rnd, 60)] for _ in range(150 if quick else 1500)]
     acc, reach = tracecheck.validate(ck, 'PathSeq_Trace', 'PathSeq_Trace.cfg', 'PathSeq_TraceAt.cfg', traces, timeout=3000)
     ck.trace_ok(len(acc))
@@ -414,12 +415,56 @@ def run(ck):
                     'answers = those of a fresh object', observed=ev, driver='trace')
 
 
+def suite_traces(ck):
+    """V on the repository's own tests: every Path mutation performed while the suite runs (also inside the library) is recorded by the
+    pytest plugin harness/pytest_recorder.py (enabled by SVGPATHTOOLS_VERIF=1) and validated by PathOpaque_Trace.tla."""
+    import json as _json
+    import os
+    import subprocess
+    import tempfile
+    from ..core import REPO, VERIF
+    fd, out = tempfile.mkstemp(prefix='suite_traces_', suffix='.json')
+    os.close(fd)
+    try:
+        env = dict(os.environ, SVGPATHTOOLS_VERIF='1', PYTHONPATH=VERIF, VERIF_TRACE_OUT=out, PYTHONHASHSEED='0')
+        pr = subprocess.run(['/venv/bin/python', '-m', 'pytest', '-q', '-x', '-p', 'no:cacheprovider', '-p', 'harness.pytest_recorder', '--timeout=900',
+                             'test/test_path.py', 'test/test_parsing.py', 'test/test_generation.py', 'test/test_groups.py', 'test/test_svg2paths.py'],
+                            cwd=REPO, env=env, stdout=subprocess.PIPE, stderr=subprocess.STDOUT, text=True, timeout=1200)
+        try:
+            traces = _json.load(open(out))
+        except Exception:      # noqa
+            traces = []
+    finally:
+        try:
+            os.remove(out)
+        except OSError:
+            pass
+    if not traces:
+        ck.machinery_errors.append('the pytest recorder produced no traces:\n' + pr.stdout[-800:])
+        return
+    acc, reach = tracecheck.validate(ck, 'PathOpaque_Trace', 'PathOpaque_Trace.cfg', 'PathOpaque_TraceAt.cfg', traces)
+    ck.trace_ok(len(acc))
+    ck.count('suite_traces', len(traces))
+    ck.count('suite_trace_events', sum(len(t) for t in traces))
+    ck.sample('suite-trace', traces[0][:3])
+    for i, t in enumerate(traces):
+        ck.case(fp=('suite', i, len(t)), nontrivial=len(t) > 2)
+        if i in acc:
+            continue
+        at = reach.get(i, 0)
+        ev = t[min(at, len(t) - 1)]
+        stale = not (ev.get('okLen', True) and ev.get('okStart', True) and ev.get('okEnd', True))
+        ck.disagree(key='Path/%s/%s-in-test-suite-trace' % (ev['op'], 'answers-differ-from-fresh' if stale else 'sequence-semantics'),
+                    site='svgpathtools/path.py:Path', what='a Path mutation recorded while the repository tests ran is rejected by PathOpaque_Trace at event %d: %s' % (at + 1, ev),
+                    case={'hist': t[:at + 1], 'mode': 'suite-trace'}, expected='sequence semantics + fresh answers', observed=ev, driver='suite-trace')
+
+
 def replay(rec):
     case = rec['case']
     hist = case['hist']
     rnd = random.Random(1)
-    if 'cls' in case:
-        print('segment-level case; history:', hist)
+    if 'cls' in case or case.get('mode') == 'suite-trace':
+        print('history:', hist)
         return 1
     p = sp.Path(*[mk(s, case.get('cubic', False)) for s in hist[0]['after']])
     print('Init', p)
